@@ -50,10 +50,25 @@ T4Leaves == << LeafRec(1, 0, 2, 0, <<<<111>>, <<112>>>>), LeafRec(2, 0, 4, 2, <<
 T4Cont(c, g) == IF c = 1 THEN [defs |-> <<2, 1, 0>>, reps |-> <<0, 0, 0>>, vals |-> <<Tk(1, 0, 3 + Seed + g)>>]
                 ELSE [defs |-> <<4, 2, 1, 0, 3, 4>>, reps |-> <<0, 2, 1, 0, 0, 2>>, vals |-> <<Tk(2, 0, 1 + Seed + g), Tk(2, 0, 5 + Seed)>>]
 
-Elems(t) == CASE t = 1 -> T1Elems [] t = 2 -> T2Elems [] t = 3 -> T3Elems [] t = 4 -> T4Elems
-Leaves(t) == CASE t = 1 -> T1Leaves [] t = 2 -> T2Leaves [] t = 3 -> T3Leaves [] t = 4 -> T4Leaves
-Cont(t, c, g) == CASE t = 1 -> T1Cont(c, g) [] t = 2 -> T2Cont(c, g) [] t = 3 -> T3Cont(c, g) [] t = 4 -> T4Cont(c, g)
-NRows(t) == CASE t = 1 -> 5 [] t = 2 -> 4 [] t = 3 -> 20 [] t = 4 -> 3
+\* ---- table 5: long columns (LongRows rows): definition levels in runs of many lengths (beat of two periods), a
+\* REQUIRED INT32 column with 300 distinct values (dictionary index width 9), OPTIONAL BYTE_ARRAY / DOUBLE / BOOLEAN
+LongRows == 600
+T5Elems == << Root(4), Leaf(<<97>>, 1, 0, 0), Leaf(<<115>>, 6, 1, 0), Leaf(<<100>>, 5, 1, 0), Leaf(<<98>>, 0, 1, 0) >>
+T5Leaves == << LeafRec(1, 0, 0, 0, <<<<97>>>>), LeafRec(6, 0, 1, 0, <<<<115>>>>), LeafRec(5, 0, 1, 0, <<<<100>>>>), LeafRec(0, 0, 1, 0, <<<<98>>>>) >>
+Beat(i, l1, l2) == (((i - 1) \div l1) + ((i - 1) \div l2)) % 2
+T5Defs(c) == [i \in 1..LongRows |-> CASE c = 1 -> 0 [] c = 2 -> Beat(i, 7, 64) [] c = 3 -> Beat(i, 1, 9) [] c = 4 -> Beat(i, 63, 100)]
+T5Cont(c, g) == LET defs == T5Defs(c)
+                    nn == Len(SelectSeq(defs, LAMBDA d : d = T5Leaves[c].maxDef))
+                IN [defs |-> defs, reps |-> [i \in 1..LongRows |-> 0],
+                    vals |-> [j \in 1..nn |-> CASE c = 1 -> WideAt(1, 0, (j * 37 + Seed + g) % 300)
+                                                 [] c = 2 -> WideAt(6, 0, (j * 11 + Seed + g) % 40)
+                                                 [] c = 3 -> WideAt(5, 0, (j + g) % 1000)
+                                                 [] c = 4 -> WideAt(0, 0, (j \div 3) + g)]]
+
+Elems(t) == CASE t = 1 -> T1Elems [] t = 2 -> T2Elems [] t = 3 -> T3Elems [] t = 4 -> T4Elems [] t = 5 -> T5Elems
+Leaves(t) == CASE t = 1 -> T1Leaves [] t = 2 -> T2Leaves [] t = 3 -> T3Leaves [] t = 4 -> T4Leaves [] t = 5 -> T5Leaves
+Cont(t, c, g) == CASE t = 1 -> T1Cont(c, g) [] t = 2 -> T2Cont(c, g) [] t = 3 -> T3Cont(c, g) [] t = 4 -> T4Cont(c, g) [] t = 5 -> T5Cont(c, g)
+NRows(t) == CASE t = 1 -> 5 [] t = 2 -> 4 [] t = 3 -> 20 [] t = 4 -> 3 [] t = 5 -> LongRows
 Cuts(t, c, np) == LET n == Len(Cont(t, c, 1).defs)
                   IN IF np = 1 THEN <<n>>
                      ELSE IF t = 2 THEN T2Cut(c)
